@@ -2,7 +2,9 @@
 
 Part 1 (this module, phase main): per-recipient outcome histories over >= 2 rounds on all four storage backends with the
 real Queue, compared with the Lean attempt model (Model/Attempt.lean), whose multi-round index bookkeeping is tied to
-the backends by C15's refinement theorem. Part 2: scheduler interleavings (see harness/props/_sched.py) .
+the backends by C15's refinement theorem. Part 2: scheduler interleavings — the scenarios of the C12 harness (started real Queue,
+virtual clock, held relay outcomes, held store.get / store.write / store.set_timestamp, storage announcements, flushes),
+replayed through Model/Sched.lean, with the monitor 'a second attempt is started while one is in flight'.
 """
 import itertools
 
@@ -11,8 +13,8 @@ from harness.props import _queuehist as qh
 
 RULE = ('exhaustive per-recipient outcome tables: 1..3 recipients x 3 outcomes (delivered / permanent / transient) x 2..3 '
         'rounds, as mapping and as sequence results, on dict, disk, redis and cloud backends, backoff 0 (retry due at once); '
-        'plus seeded histories with 4 recipients and bounded store/relay pools. distinct = distinct (backend, history, pools); '
-        'non-trivial = at least two attempts.')
+        'plus seeded histories with 4 recipients and bounded store/relay pools; plus scheduler scenarios (see C12) monitored for a second '
+        'attempt of a message in flight. distinct = distinct (backend, history, pools) / scenario descriptor; non-trivial = at least two attempts.')
 BUDGET_S = {'quick': 170, 'thorough': 1500}
 
 
@@ -64,5 +66,33 @@ def cases(tier, seed, phase):
         yield mk
 
 
+def sched_cases(tier, seed):
+    from harness.props import c12
+    for j in range(1500 if tier == 'quick' else 30000):
+        def mk(j=j):
+            rng = rng_for(seed, 'c03s', j)
+            return {'sched': True, 'script': None, 'seed': rng.randrange(1 << 30), 'backoff': rng.choice(c12.BACKOFFS), 'preload': rng.choice([0, 1, 2]),
+                    'pools': rng.choice([None, None, [3, 3]]), 'nmsg': rng.choice([1, 2, 3]), 'steps': rng.choice([10, 16, 24]),
+                    'holds': True, 'idorder': rng.choice(['asc', 'desc']), 'stale': rng.random() < 0.5}
+        yield mk
+
+
+_base_cases = cases
+
+
+def cases(tier, seed, phase):          # noqa: F811  (the scheduler scenarios are appended to the histories)
+    for c in _base_cases(tier, seed, phase):
+        yield c
+    for c in sched_cases(tier, seed):
+        yield c
+
+
 def run_case(case, model):
+    if case.get('sched'):
+        from harness.core import CaseResult
+        from harness.props import c12
+        r = c12.run_case(case, model)
+        # C03's own question about these runs: is a second attempt of a message ever started while one is in flight?
+        hits = [h for h in r.hits if h['signature'].startswith('c03.')]
+        return CaseResult(r.mismatch, hits, ('sched',) + tuple(r.key) if r.key else None, ['sched'] + [t for t in r.tags if t.startswith('label:')])
     return qh.run_case(case, model, {'C03'})
